@@ -121,3 +121,7 @@ if __name__ == "__main__" and sys.argv[1] == "benign":
     bd = os.path.join(ROOT, "benign", sys.argv[2])
     meta = json.load(open(os.path.join(bd, "meta.json")))
     from_patch(os.path.join(bd, "patch.diff"), meta["property"], "benign_" + sys.argv[2], "SILENT", "behaviour-preserving change " + sys.argv[2] + ": " + meta.get("what", ""))
+
+if __name__ == "__main__" and sys.argv[1] == "patch":
+    # mm.py patch <patch-file> <prop> <name> <expect_rule|SILENT> [note]: a variant from any unified diff against HEAD
+    from_patch(sys.argv[2], sys.argv[3], sys.argv[4], sys.argv[5], sys.argv[6] if len(sys.argv) > 6 else "")
